@@ -6,7 +6,7 @@ set -u
 dir="$1"; base="${2:-e7fe4d8}"
 id=$(basename "$dir")
 wt=/tmp/seedverify_$id
-export CARGO_TARGET_DIR=/tmp/seedverify_target CARGO_NET_OFFLINE=true
+export CARGO_TARGET_DIR=${SEEDVERIFY_TARGET:-/tmp/seedverify_target} CARGO_NET_OFFLINE=true
 log="$dir/confirm.log"; : > "$log"
 git -C /repo worktree remove --force "$wt" >/dev/null 2>&1
 git -C /repo worktree add --detach "$wt" "$base" >>"$log" 2>&1 || { echo "$id: worktree failed"; exit 2; }
